@@ -201,6 +201,14 @@ def oneshot_item(item):
             out["blers"] = blers
             blers_none = val_of(BlockErrorRate()(X, Y))
             out["bler_none"] = blers_none
+            # the stateful path on the same data: update() once, then compute(), for block_size None and every divisor
+            upd = {}
+            for bs in ([None] + list(blers)) if len(shape) > 1 else ():
+                mtr = BlockErrorRate(block_size=bs)
+                wrap_state(mtr)
+                mtr.update(X, Y)
+                upd[bs] = val_of(mtr.compute())
+            out["upd"] = upd
             if n % BLOCK == 0:
                 out["bench_bler"] = StandardMetrics.block_error_rate(X.reshape(-1), Y.reshape(-1), BLOCK)
         elif len(shape) > 1:
@@ -251,6 +259,18 @@ def oneshot_item(item):
                 bad = z3.Or(S.zbool(S.gt(R["ber"], S.add(v, 2.0 ** -20))), S.zbool(S.gt(v, 1)), S.zbool(S.gt(v, S.add(S.mul(R["ber"], bs), 2.0 ** -20))))
                 st, model = decide(ctx, bad)
                 note("BER<=BLER<=min(1,B*BER)", st, f"ordering BER <= BLER <= min(1, B*BER) fails for block_size={bs}", model)
+        if not cplx and R.get("upd"):
+            for bs, v in R["upd"].items():
+                bsz = bs if bs is not None else N // shape[0]       # block_size None: one block per batch item
+                nb = N // bsz
+                be = 0
+                for b in range(nb):
+                    a = False
+                    for d in diff[b * bsz:(b + 1) * bsz]:
+                        a = S.bor(a, d)
+                    be = S.add(be, a)
+                st, model = decide(ctx, neq_ratio(v, be, nb))
+                note("BLER update()+compute() = blocks-in-error/blocks", st, f"update()+compute() with block_size={bs} differs from (#blocks with a difference)/#blocks", model)
         if cplx and "cblers" in R:
             sd = [S.bor(diff[i], diff[n + i]) for i in range(n)]       # symbol i differs in its real or imaginary part
             for bs, v in R["cblers"].items():
@@ -327,6 +347,14 @@ def replay_oneshot(clause, shape, cplx, w):
             d = (X != Y).flatten()          # BLER counts complex symbols
             N = d.numel()
         per_row = N // shape[0]
+        if clause.startswith("BLER update()"):
+            for bs in [None] + [b for b in range(1, per_row + 1) if per_row % b == 0]:
+                mtr = BlockErrorRate(block_size=bs)
+                mtr.update(X, Y)
+                blocks = d.reshape(-1, bs if bs is not None else per_row).any(dim=1)
+                if abs(float(mtr.compute()) - int(blocks.sum()) / blocks.numel()) > 2.0 ** -20:
+                    return True
+            return False
         for bs in range(1, per_row + 1):
             if per_row % bs:
                 continue
